@@ -14,6 +14,10 @@ GEN = {
                  "-funcs", "reduceOnce,add,sub,neg,mul,power2Round,scalePower2,divBy2Gamma2,decompose,highBits,lowBits,"
                            "makeHint,useHint,centeredAbs,centeredMax"],
     },
+    "EnumTables": {
+        "owner": ["C12"], "tool": "extract",
+        "args": ["enumtables"],
+    },
 }
 
 
@@ -26,10 +30,13 @@ def regenerate(prop, repo, verif, build, build_harness=None):
         todo = [n for n in GEN if not os.path.exists(os.path.join(verif, "lean", "TinkVerif", "Gen", n + ".lean"))]
         if not todo:
             return res
-    ok, log, binp = build_harness("translator")
-    if not ok:
-        res["problems"].append("translator does not build: " + log[-400:])
-        return res
+    bins = {}
+    for tool in sorted({GEN[n].get("tool", "translator") for n in todo}):
+        ok, log, binp = build_harness(tool)
+        if not ok:
+            res["problems"].append(tool + " does not build: " + log[-400:])
+            return res
+        bins[tool] = binp
     env = dict(os.environ, GOFLAGS="-mod=mod", GOPROXY="off")
     os.makedirs(os.path.join(verif, "lean", "TinkVerif", "Gen"), exist_ok=True)
     for n in todo:
@@ -38,7 +45,7 @@ def regenerate(prop, repo, verif, build, build_harness=None):
         tmp = os.path.join(build, n + ".lean.new")
         if os.path.exists(tmp):
             os.remove(tmp)
-        p = subprocess.run([binp] + g["args"] + ["-out", tmp], cwd=repo, env=env, stdout=subprocess.PIPE,
+        p = subprocess.run([bins[g.get("tool", "translator")]] + g["args"] + ["-out", tmp], cwd=repo, env=env, stdout=subprocess.PIPE,
                            stderr=subprocess.STDOUT, text=True, timeout=600)
         res["obligations"] += 1
         if p.returncode != 0 or not os.path.exists(tmp):
